@@ -139,6 +139,10 @@ NSrc(n) ==
     [] n.k = "for" ->
          TagSrc(n.wc, TagHead(n)) \o Src(n.body) \o ElseSrc(n.else) \o TagSrc(n.ewc, "endfor")
     [] n.k = "liquid" -> "{%" \o n.wc[1] \o " liquid\n" \o Lines(n.body) \o "\n" \o n.wc[2] \o "%}"
+    [] n.k = "extends" -> TagSrc(n.wc, "extends '" \o n.name \o "'")
+    [] n.k = "block" ->
+         TagSrc(n.wc, "block " \o n.n \o (IF n.required THEN " required" ELSE "")) \o Src(n.body)
+         \o TagSrc(n.ewc, "endblock" \o (IF n.endname = "" THEN "" ELSE " " \o n.endname))
 
 \* the same constructs as line statements inside {% liquid %} (no delimiters, no
 \* whitespace control, no literal text)
@@ -164,7 +168,7 @@ LSrc(n) ==
 FirstLeft(n) == IF n.k = "text" THEN "+" ELSE n.wc[1]
 LastRight(n) ==
   CASE n.k = "text" -> "+"
-    [] n.k \in {"capture", "if", "unless", "case", "for", "with", "macro", "tablerow"} -> n.ewc[2]
+    [] n.k \in {"capture", "if", "unless", "case", "for", "with", "macro", "tablerow", "block"} -> n.ewc[2]
     [] n.k = "raw" -> n.wc[4]
     [] OTHER -> n.wc[2]
 
@@ -189,7 +193,7 @@ AnnotElse(els, ewc) ==
   IF els.has THEN [els EXCEPT !.body = Annot(els.body, els.wc[2], ewc[1])] ELSE els
 
 AnnotNode(n) ==
-  CASE n.k \in {"capture", "with", "macro", "tablerow"} -> [n EXCEPT !.body = Annot(n.body, n.wc[2], n.ewc[1])]
+  CASE n.k \in {"capture", "with", "macro", "tablerow", "block"} -> [n EXCEPT !.body = Annot(n.body, n.wc[2], n.ewc[1])]
     [] n.k \in {"if", "unless"} ->
          [n EXCEPT !.body = Annot(n.body, n.wc[2], NextBranchLeft(n.elifs, 0, n.else, n.ewc)),
                    !.elifs = [j \in DOMAIN n.elifs |->
@@ -214,7 +218,7 @@ ClearWc(nodes) ==
      LET n == nodes[i] IN
      CASE n.k = "text" -> n
        [] n.k = "raw" -> [n EXCEPT !.wc = <<"", "", "", "">>]
-       [] n.k \in {"capture", "with", "macro", "tablerow"} -> [n EXCEPT !.wc = <<"", "">>, !.ewc = <<"", "">>, !.body = ClearWc(n.body)]
+       [] n.k \in {"capture", "with", "macro", "tablerow", "block"} -> [n EXCEPT !.wc = <<"", "">>, !.ewc = <<"", "">>, !.body = ClearWc(n.body)]
        [] n.k \in {"if", "unless"} ->
             [n EXCEPT !.wc = <<"", "">>, !.ewc = <<"", "">>, !.body = ClearWc(n.body),
                       !.elifs = [j \in DOMAIN n.elifs |-> ClearBranch(n.elifs[j])],
